@@ -84,6 +84,10 @@ def main():
     old = {}
     mp = os.path.join(dst, "meta.json")
     if os.path.exists(mp): old = json.load(open(mp))
+    # a partial re-run (fewer properties) keeps the earlier verdicts of the others
+    meta["check_results"] = {**old.get("check_results", {}), **results}
+    meta["properties_checked"] = sorted(set(old.get("properties_checked", [])) | set(props))
+    meta["caught_by"] = [p for p, r in meta["check_results"].items() if r["exit"] != 0]
     old.update(meta)
     json.dump(old, open(mp, "w"), indent=1)
     print(json.dumps({k: meta.get(k) for k in ("seeded_id", "patch_applies", "suite_passes_with_patch", "demo_fails_with_patch", "demo_passes_without_patch", "caught_by")}, indent=1))
